@@ -509,6 +509,7 @@ func main() {
 	sort.Slice(total.Viol, func(i, j int) bool { return total.Viol[i].Index < total.Viol[j].Index })
 	seenSig := map[string]bool{}
 	reported := 0
+	unrepro := 0
 	for _, v := range total.Viol {
 		if seenSig[v.Signature] {
 			continue
@@ -546,8 +547,22 @@ func main() {
 			die2("replay of violating world %d failed: %v\n%s", v.Index, err, out)
 		}
 		if r.Signature != v.Signature {
-			cleanup()
-			die2("world %d (%s) does not reproduce in a fresh process (got %q): nondeterminism", v.Index, v.Signature, r.Signature)
+			// try the unminimised world, a few times, before giving up on it
+			final = v.File
+			for try := 0; try < 3 && r.Signature != v.Signature; try++ {
+				if r, out, err = b.replayFresh(final, 5*time.Minute); err != nil {
+					cleanup()
+					die2("replay of violating world %d failed: %v\n%s", v.Index, err, out)
+				}
+			}
+		}
+		if r.Signature != v.Signature {
+			// the tree under test has a source of nondeterminism the simulator does not own (for
+			// instance a sync.Pool, or a map range gsinstr could not rewrite): the observation is
+			// reported but cannot be a VIOLATION line, because its replay file would not replay
+			unrepro++
+			fmt.Printf("UNREPRODUCIBLE world %d (seed %d): the search run saw %s but fresh processes do not reproduce it (got %q); detail of the observation: %s\n", v.Index, seed, v.Signature, r.Signature, clipS(v.Detail, 600))
+			continue
 		}
 		os.MkdirAll(filepath.Join(verif, "replays"), 0o755)
 		dst := filepath.Join(verif, "replays", fmt.Sprintf("%s-seed%d-w%d.json", *prop, seed, v.Index))
@@ -635,6 +650,9 @@ func main() {
 	cleanup()
 	if violations > 0 {
 		os.Exit(1)
+	}
+	if unrepro > 0 {
+		die2("%d observation(s) could not be reproduced in a fresh process and nothing else was found: the check cannot decide", unrepro)
 	}
 	if total.Worlds == 0 {
 		die2("no world was executed")
@@ -921,4 +939,11 @@ func selfTest(only string, seed int64) int {
 		return 2
 	}
 	return 0
+}
+
+func clipS(s string, n int) string {
+	if len(s) > n {
+		return s[:n] + "..."
+	}
+	return s
 }
